@@ -6,7 +6,9 @@ the Merton / Kou jump models reduce to it at zero jump intensity; plus the noise
 (F11 noise_stall: the engine returns zeros; sigma = 0 for the generators without an engine seam
 where the scheme is exact there); the drift compensator of the jump models, read off the jump-free
 steps of a stalled-engine run with rare jumps (closed form, no statistics); and that a simulation
-aborted by its sigma_fn leaves the previous complete sample.  NOT decided: every distributional clause (means, variances,
+aborted by its sigma_fn leaves the previous complete sample; and the support of one quadratic-exponential
+step of the CIR / Heston variance where psi of the first step is far above the switching level (the
+law has an atom at zero there: among 96 paths at least one is exactly zero, none negative).  NOT decided: every distributional clause (means, variances,
 correlations, martingale property, QE branch moments, rough-Bergomi forward variance) - those need
 large-sample statistics with error bars, which is statistical testing, not this family.
 """
@@ -24,12 +26,14 @@ RULE = ("Seeded calls (generator or instrument x parameters x n_paths x n_steps 
         "Each run holds 2-6 operations. Non-trivial = an implied-normal comparison with T >= 3, non-default initial state or drift, or a "
         "noise-stall run. Distinct = distinct (generator, parameter tuple, shape, dtype, engine mode).")
 COMPONENTS = {"real": ["generate_brownian, generate_geometric_brownian, generate_merton_jump, generate_kou_jump, MertonJumpStock, KouJumpStock, "
-                       "generate_vasicek, generate_local_volatility_process"],
+                       "generate_vasicek, generate_local_volatility_process, generate_cir, generate_heston, CIRRate, HestonStock (first QE step only)"],
               "stub": ["SimEngine (supplies and records the normals; can stall = return zeros)", "step-by-step SDE reference"]}
 ASSUMPTIONS = ["any injective map from time steps to recorded engine columns (the same for all paths) is accepted, so a refactor of which draw "
                "drives which step is not an alarm",
                "implied normals are compared within the rounding bound of the cumulative sum: 16*eps*(T*max|z| + max|X|/(sigma*sqrt(dt)))",
-               "the distributional clauses of the property are not decided by this check (partial claim)"]
+               "the distributional clauses of the property are not decided by this check (partial claim)",
+               "QE atom probe: with psi >= 3 on the first step each of the 96 paths is at exactly zero with probability p >= 1/2 independently; "
+               "'no path at zero' has probability <= 2^-96 and is reported as a violation of the scheme's support"]
 PROBES = ["qe_exponential_branch_atom", "implied_normals", "noise_stall", "sigma_zero_skeleton", "merton_zero_intensity", "kou_zero_intensity", "instrument_engine",
           "init_nondefault", "drift_nonzero", "float64", "n_steps_1", "n_steps_2", "horizon_not_multiple_of_dt", "live_instrument", "simulation_aborted_by_sigma_fn", "compensated_drift_between_jumps"]
 FNS = ["generate_brownian", "generate_geometric_brownian", "generate_merton_jump", "generate_kou_jump", "MertonJumpStock", "KouJumpStock"]
